@@ -420,8 +420,9 @@ const UP: &[u8] = b"ABCDEFGHIJKLMNOPQRSTUVWXYZ";
 
 /// Default field and variant names are deliberately NOT in alphabetical order and contain prefixes of one
 /// another, so that code which sorts or matches names as text cannot hide behind f0 < f1 < f2.
-const FIELD_NAMES: [&str; 14] = ["z", "a", "m", "ab", "y", "b", "x", "c", "w", "d", "v", "e", "u", "f"];
-const VARIANT_NAMES: [&str; 10] = ["Vz", "Va", "Vm", "Vab", "Vy", "Vb", "Vx", "Vc", "Vw", "Vd"];
+/// (some begin with an underscore or have no letter at all: legal names that are not the reserved word `_`)
+const FIELD_NAMES: [&str; 14] = ["z", "a", "_m", "ab", "y", "_0b", "x", "c", "__", "d", "v", "e", "u", "f"];
+const VARIANT_NAMES: [&str; 10] = ["Vz", "Va", "Vm", "Vab", "Vy", "_Vb", "Vx", "Vc", "Vw", "Vd"];
 
 pub fn default_field_name(i: usize) -> String {
     FIELD_NAMES.get(i).map(|s| s.to_string()).unwrap_or_else(|| format!("q{i}"))
@@ -441,7 +442,8 @@ pub fn nonterminal_name(i: usize, naming: u8) -> String {
 pub fn terminal_name(i: usize, naming: u8) -> String {
     let j = if naming == 1 { 25 - i } else { i };
     assert!(j < 26);
-    format!("T{}", (UP[j] as char).to_ascii_lowercase())
+    // three characters, so that no terminal name can coincide with a (two-letter) nonterminal name
+    format!("T{}x", (UP[j] as char).to_ascii_lowercase())
 }
 
 pub fn render(g: &Grammar, pr: &Presentation) -> Rendered {
